@@ -133,34 +133,48 @@ func VH_C10_slice_concat() {
 }
 
 //verif:harness prop=C10 quick=2 thorough=4 merge=concrete
-//verif:bounds Concat of a head of 0..3 residues and a tail of 2 (quick) / 2..3 residues whose table holds one atom (range with flags | point | between-site incl. the site before the first residue) with symbolic coordinates: the tail's feature lands at its own coordinates plus len(head), kind, strand and flags unchanged
+//verif:bounds Concat of a head of 0..3 residues, a middle of 0..2 residues and a tail of 2 (quick) / 2..3 residues; the middle and the tail each hold one atom (range with flags | point | between-site incl. the site before the first residue) with symbolic coordinates: every feature lands at its own coordinates plus the length of everything before its piece, kind, strand and flags unchanged
 func VH_C10_concat_offsets() {
 	sh := vShard(2 + 2*vTier())
-	Lb := 2 + sh/2
+	Lc := 2 + sh/2
 	La := vChoice("La", 4)
+	Lb := vChoice("Lb", 3)
 	a := New(nil, nil, vBytes("a", La))
-	loc := vGenAtom("f", Lb, 3)
-	if sh%2 == 1 {
-		loc = loc.Complement()
+	mk := func(name string, L int, tag int) (Sequence, Location) {
+		if L == 0 {
+			return New(nil, nil, nil), nil
+		}
+		loc := vGenAtom(name, L, 3)
+		if sh%2 == 1 {
+			loc = loc.Complement()
+		}
+		ff := FeatureSlice{}
+		ff = ff.Insert(Feature{"gene", loc, vFeatTag(tag)})
+		return New(nil, ff, vBytes(name+"r", L)), loc
 	}
-	ff := FeatureSlice{}
-	ff = ff.Insert(Feature{"gene", loc, vFeatTag(1)})
-	b := New(nil, ff, vBytes("b", Lb))
-	out := Concat(a, b)
+	b, locB := mk("g", Lb, 1)
+	c, locC := mk("f", Lc, 2)
+	out := Concat(a, b, c)
 	vCover("concatenated")
-	vAssert("length", len(out.Bytes()) == La+Lb)
-	fs := out.Features()
-	vAssert("feature-kept", len(fs) == 1)
-	if len(fs) != 1 {
-		return
-	}
-	as, bs := vAtoms(loc), vAtoms(fs[0].Loc)
-	vAssert("same-shape", vSameKinds(as, bs))
-	if vSameKinds(as, bs) {
-		for k := range as {
-			vAssert("offset-by-head-length", vAnd(bs[k].s == as[k].s+La, bs[k].e == as[k].e+La))
-			vAssert("strand-and-flags-kept", vAnd(bs[k].rev == as[k].rev, vAnd(bs[k].p5 == as[k].p5, bs[k].p3 == as[k].p3)))
+	vAssert("length", len(out.Bytes()) == La+Lb+Lc)
+	check := func(tag string, loc Location, off int) {
+		f, n := vFindTagged(out.Features(), tag)
+		vAssert("feature-kept", n == 1)
+		if n != 1 {
+			return
+		}
+		as, bs := vAtoms(loc), vAtoms(f.Loc)
+		vAssert("same-shape", vSameKinds(as, bs))
+		if vSameKinds(as, bs) {
+			for k := range as {
+				vAssert("offset-by-the-length-before-the-piece", vAnd(bs[k].s == as[k].s+off, bs[k].e == as[k].e+off))
+				vAssert("strand-and-flags-kept", vAnd(bs[k].rev == as[k].rev, vAnd(bs[k].p5 == as[k].p5, bs[k].p3 == as[k].p3)))
+			}
 		}
 	}
-	vObserve("n", len(bs))
+	if locB != nil {
+		check("1", locB, La)
+	}
+	check("2", locC, La+Lb)
+	vObserve("n", len(out.Features()))
 }
